@@ -105,6 +105,11 @@ func valCase(env *zygo.Zlisp, v *V, jsonlike bool, withSource bool, tags ...stri
 	valCaseSexp(env, v, v.sexp(env), "val", "", jsonlike, withSource, tags...)
 }
 
+// ptyCase: the value printed under env.Pretty = true (the builtin (pretty true)): one element / pair per line
+func ptyCase(env *zygo.Zlisp, v *V, jsonlike bool, withSource bool, tags ...string) {
+	valCaseSexp(env, v, v.sexp(env), "pty", "", jsonlike, withSource, tags...)
+}
+
 // cuts of the next case: set by replay, otherwise drawn from cutRng
 var cutRng *lib.Rng
 var forcedCuts []int
@@ -179,6 +184,10 @@ func piecesRoute(env *zygo.Zlisp, printed string, cuts []int) string {
 func valCaseSexp(env *zygo.Zlisp, v *V, sx zygo.Sexp, prefix, extra string, jsonlike bool, withSource bool, tags ...string) {
 	if jsonlike && !v.isJSONLike() {
 		jsonlike = false
+	}
+	if prefix == "pty" || prefix == "pts" {
+		env.Pretty = true // what SetPrettyPrintFlag does for (pretty true)
+		defer func() { env.Pretty = false }()
 	}
 	printed := ""
 	p := guard(func() string {
@@ -427,6 +436,7 @@ func valueStream(rng *lib.Rng, nData, nJSON int) {
 			nfl++
 		}
 		valCase(env, v, js, js, append(valTags(v, "grid"), "stream:grid")...)
+		ptyMaybe(env, nil, v, js, js, "ptyofgrid")
 	}
 	for i := 0; i < nData; i++ {
 		o := genOpt{symMode: 0}
@@ -447,6 +457,9 @@ func valueStream(rng *lib.Rng, nData, nJSON int) {
 			}
 		})
 		valCase(env, v, false, false, append(valTags(v, "data"), "stream:data")...)
+		if i%4 == 1 {
+			ptyMaybe(env, rng, v, false, false, "ptyofdata")
+		}
 	}
 	for i := 0; i < nJSON; i++ {
 		v := genValue(rng, 1+rng.Intn(5), genOpt{jsonlike: true})
@@ -806,9 +819,9 @@ func main() {
 	defer os.RemoveAll(tmpdir)
 	rng := lib.NewRng(args.Seed)
 	cutRng = lib.NewRng(args.Seed ^ 0x5eed)
-	nData, nJSON, nQS, litLen, nLit, nHist, nScr := 2000, 900, 1500, 4, 3000, 400, 500
+	nData, nJSON, nQS, litLen, nLit, nHist, nScr, nPty := 2000, 900, 1500, 4, 3000, 400, 500, 400
 	if args.Tier == "thorough" {
-		nData, nJSON, nQS, litLen, nLit, nHist, nScr = 40000, 15000, 30000, 5, 60000, 8000, 10000
+		nData, nJSON, nQS, litLen, nLit, nHist, nScr, nPty = 40000, 15000, 30000, 5, 60000, 8000, 10000, 8000
 	}
 	if args.Replay != "" {
 		replay(args.Replay)
@@ -818,6 +831,7 @@ func main() {
 		litStream(rng.Fork(), litLen, nLit)
 		histStream(rng.Fork(), nHist)
 		scriptStream(rng.Fork(), nScr)
+		prettyStream(rng.Fork(), nPty)
 	}
 	out.Extra["harness_wall_s"] = time.Since(t0).Seconds()
 	out.Close(args.Stats)
